@@ -37,6 +37,7 @@ var swapExceptions = []report.Exception{
 	{Key: "R-ALIAS/field.(*Element).Swap/(v,u)", Reason: "exchange: with v==u, t = m&(v.l^u.l) = 0 and every write is a no-op; Swap(v,v) is the identity as it is with distinct storage of equal contents"},
 	{Key: "R-RO/field.(*Element).Swap/u", Reason: "u is an in/out argument by contract (\"swaps v and u\")"},
 }
+var swapRecvRO = report.Exception{Key: "R-RO/field.(*Element).Swap/recv", Reason: "exchange: both operands are in/out by contract"}
 var swapInit = report.Exception{Key: "R-INIT/field.(*Element).Swap/recv", Reason: "exchange is in/out by contract: the receiver's old value is one of the two results"}
 
 var multNames = []string{"(*Point).ScalarMult", "(*Point).ScalarBaseMult", "(*Point).VarTimeDoubleScalarBaseMult", "(*Point).MultiScalarMult", "(*Point).VarTimeMultiScalarMult"}
@@ -200,7 +201,7 @@ func init() {
 		Explanation: "R-ALIAS: for every function (Go and asm) and every pair of roots that may alias exactly, no read through one follows an overlapping write through the other on any CFG path and they are not both written; R-RO: no exported function writes a non-receiver argument, slice, slice element or pointee; R-FRESH: no exported function hands out an interior pointer (premise of 'exact aliasing is the only case'). If no input location is read after an overlapping write through a may-aliased root, the sequence of values read is the same with and without aliasing, hence so is the result.",
 		Assumptions: []string{"without unsafe two *T are equal or disjoint unless one points into the other's object; interior pointers of Point/Scalar/Element cannot be obtained outside the packages (R-FRESH, checked in the same run)"},
 		TrustedBase: trustedCommon,
-		Exceptions:  swapExceptions,
+		Exceptions:  append(append([]report.Exception{}, swapExceptions...), swapRecvRO),
 		Floors:      []report.Floor{{Rule: "R-ALIAS", Min: 2 * 95}, {Rule: "R-RO", Min: 2 * 55}, {Rule: "R-FRESH", Min: 2 * 45}},
 		Build: func(c *Ctx) {
 			for _, cfg := range c.Configs() {
@@ -250,7 +251,7 @@ func init() {
 				c.addAll(a.RFresh())
 			}
 		},
-		Exceptions: []report.Exception{swapExceptions[1]},
+		Exceptions: []report.Exception{swapExceptions[1], swapRecvRO},
 	})
 	// ------------------------------------------------------------------ C19
 	register(&Prop{
@@ -268,6 +269,7 @@ func init() {
 				c.addAll(a.RFresh())
 				c.addAll(a.RGlobal())
 				c.addAll(a.RInitReceivers(nil))
+				c.addAll(a.RDefined())
 			}
 		},
 	})
